@@ -310,6 +310,8 @@ def shape(t):
             return ("bytes", False)
         if p == "unit":
             return ("list", ("unit",))
+        if p == "f64":
+            return ("list", ("f64",))
         return ("list", ("nat", PRIMS[p][3]))
     if k == "vecregion":
         return ("bytes", True) if a[0].kind == "string_t" else ("nat", PRIMS[a[0].kind][3])
